@@ -35,6 +35,13 @@ def smart_setup(env):
     from breezy.tests import test_server
     srv = test_server.SmartTCPServer_for_testing()
     srv.start_server(_DirServer(env.root))
+    # like `brz serve` (breezy/bzr/smart/server.py): a server never waits for
+    # a lock. Client and server share this process; no case has two actors,
+    # so a lock that cannot be taken at once is contention with oneself and
+    # waiting 30 s for it only burns the budget.
+    from breezy import lockdir
+    env.shared["lock_timeout"] = lockdir._DEFAULT_TIMEOUT_SECONDS
+    lockdir._DEFAULT_TIMEOUT_SECONDS = 0
     env.shared["smart"] = srv
     env.shared["smart_url"] = srv.get_url()
     env.shared["smart_transports"] = []
@@ -42,6 +49,9 @@ def smart_setup(env):
 
 def smart_teardown(env):
     smart_disconnect(env)
+    if "lock_timeout" in env.shared:
+        from breezy import lockdir
+        lockdir._DEFAULT_TIMEOUT_SECONDS = env.shared.pop("lock_timeout")
     srv = env.shared.pop("smart", None)
     if srv is not None:
         srv.stop_server()
